@@ -23,6 +23,9 @@ type C16Case struct {
 	Cuts   []int  `json:"cuts"` // Write boundaries; [-1] = one octet per Write
 	Reject bool   `json:"reject"`
 	Env    int    `json:"env"` // which envelope (c16Envelopes)
+	// Limit: the server's MaxMessageBytes (0: none). A message over the limit must come back from Close as 552 -
+	// whatever octets happen to sit at the limit - and one that fits must arrive as without a limit.
+	Limit int64 `json:"limit,omitempty"`
 }
 
 // envelopes: characters that mean something to fmt, to the path grammar or to xtext must arrive as given
@@ -38,8 +41,13 @@ var c16Envelopes = []struct {
 func evalC16(c C16Case) *h.Finding {
 	var f *h.Finding
 	desc := fmt.Sprintf("lmtp=%t body=%q cuts=%v reject=%t envelope=%d", c.LMTP, c.Body, c.Cuts, c.Reject, c.Env)
-	cfg := h.Config{LMTP: c.LMTP}
+	cfg := h.Config{LMTP: c.LMTP, MaxMessageBytes: c.Limit}
 	be := &h.Backend{}
+	want := ref.DotStuffNormalize(c.Body)
+	over := c.Limit > 0 && int64(len(want)) > c.Limit
+	if c.Limit > 0 {
+		desc += fmt.Sprintf(" serverlimit=%d (message %d octets)", c.Limit, len(want))
+	}
 	var verdict error
 	if c.Reject {
 		verdict = &smtp.SMTPError{Code: 554, EnhancedCode: smtp.EnhancedCode{5, 6, 0}, Message: "message refused"}
@@ -77,7 +85,13 @@ func evalC16(c C16Case) *h.Finding {
 				}
 			}
 			cerr := w.Close()
-			if c.Reject {
+			if over {
+				se, ok := cerr.(*smtp.SMTPError)
+				if !ok || se.Code != 552 {
+					f = h.F("c16-verdict", "%s: the message exceeds the server's limit (verdict 552) but Close returned %v", desc, cerr)
+					return
+				}
+			} else if c.Reject {
 				se, ok := cerr.(*smtp.SMTPError)
 				if !ok || se.Code != 554 || !strings.HasSuffix(se.Message, "message refused") { // LMTP prefixes the recipient
 					f = h.F("c16-verdict", "%s: the server refused the message with 554 'message refused' but Close returned %v", desc, cerr)
@@ -108,6 +122,9 @@ func evalC16(c C16Case) *h.Finding {
 			if err := cl.Noop(); err != nil {
 				f = h.F("c16-out-of-step", "%s: Noop after the transfer failed: %v", desc, err)
 				return
+			}
+			if c.Limit > 0 {
+				return // the fixed second message is about transfers without a limit
 			}
 			// a second message on the same connection, to another recipient
 			if err := cl.Mail("sender2@a.example", nil); err != nil {
@@ -154,7 +171,22 @@ func evalC16(c C16Case) *h.Finding {
 	if a := be.FirstAnomaly(); a != "" {
 		return h.F("c16-backend-anomaly", "%s: %s", desc, a)
 	}
-	want := ref.DotStuffNormalize(c.Body)
+	if c.Limit > 0 {
+		if len(data) != 1 {
+			return h.F("c16-data-calls", "%s: %d Data calls, want 1", desc, len(data))
+		}
+		if over {
+			if data[0].ReadErr == "EOF" || int64(len(data[0].Body)) > c.Limit || !bytes.HasPrefix(want, data[0].Body) {
+				return h.F("c16-body-differs", "%s: backend read %q (%s) of an over-limit message %q", desc, data[0].Body, data[0].ReadErr, want)
+			}
+		} else if !bytes.Equal(data[0].Body, want) || data[0].ReadErr != "EOF" {
+			return h.F("c16-body-differs", "%s: backend read %q (%s), want %q", desc, data[0].Body, data[0].ReadErr, want)
+		}
+		if len(mails) != 1 || mails[0] != from || strings.Join(rc, ",") != strings.Join(rcpts, ",") {
+			return h.F("c16-envelope", "%s: backend envelope from=%v rcpts=%v", desc, mails, rc)
+		}
+		return nil
+	}
 	if len(data) != 2 {
 		return h.F("c16-data-calls", "%s: %d Data calls, want 2", desc, len(data))
 	}
@@ -179,7 +211,7 @@ func C16(tier string) int {
 		maxTok = 7
 	}
 	tokens := []string{".", "\n", "\r\n", "a"}
-	run.Rule = fmt.Sprintf("all message bodies of <=%d tokens over {'.', LF, CRLF, 'a'} (and the empty body) x partitions into Write calls {one Write, one octet per Write, every 2-split} x server verdict {accept, reject} x {SMTP, LMTP}, cycling through 3 envelopes (plain; '%' in sender and recipients; atext specials), each a complete real-client -> real-server conversation in a synctest bubble (a client waiting for a reply that never comes is reported by the runtime as a deadlock). Distinct by construction; non-trivial = body contains '.' or a line break. Oracle: backend octets == ref.DotStuffNormalize(body) then EOF; envelope as given; Close returns the server's verdict; a second Close returns an error, writes nothing and causes no reply; the connection stays in step. Labelled supplement: seeded random 8-bit bodies.", maxTok)
+	run.Rule = fmt.Sprintf("all message bodies of <=%d tokens over {'.', LF, CRLF, 'a'} (and the empty body) x partitions into Write calls {one Write, one octet per Write, every 2-split} x server verdict {accept, reject} x {SMTP, LMTP}, cycling through 3 envelopes (plain; '%' in sender and recipients; atext specials), each a complete real-client -> real-server conversation in a synctest bubble (a client waiting for a reply that never comes is reported by the runtime as a deadlock). Distinct by construction; non-trivial = body contains '.' or a line break. Oracle: backend octets == ref.DotStuffNormalize(body) then EOF; envelope as given; Close returns the server's verdict; a second Close returns an error, writes nothing and causes no reply; the connection stays in step. Every body also against a server with MaxMessageBytes = every value 1..message size (one Write, accepting backend): over the limit Close returns 552 and the backend never sees a complete message, at the limit the message arrives intact. Labelled supplement: seeded random 8-bit bodies.", maxTok)
 	run.Assumptions = []string{"CR occurs only as part of CRLF (as the statement requires)", "an empty body arrives as a single CRLF ('final CRLF ensured')"}
 	var bodies [][]byte
 	var rec func(cur []byte, n int)
@@ -214,6 +246,20 @@ func C16(tier string) int {
 						run.Violate("c16", c, f, func() *h.Finding { return evalC16(c) })
 						run.Outcome("violation:" + f.Sig)
 					}
+				}
+			}
+		}
+		// against a server with a size limit: every limit from 1 to the message size
+		wantLen := int64(len(ref.DotStuffNormalize(b)))
+		for lim := int64(1); lim <= wantLen; lim++ {
+			for _, lmtp := range []bool{false, true} {
+				c := C16Case{LMTP: lmtp, Body: b, Env: i % len(c16Envelopes), Limit: lim}
+				f := evalC16(c)
+				run.Eval(true)
+				if f != nil {
+					c.Show = fmt.Sprintf("%q", b)
+					run.Violate("c16", c, f, func() *h.Finding { return evalC16(c) })
+					run.Outcome("violation:" + f.Sig)
 				}
 			}
 		}
